@@ -20,6 +20,9 @@ mkdir -p "$OUT"
 # Generated public headers (git-ignored in the repository): regenerate from the templates when missing.
 GEN=$OUT/gen/module; mkdir -p "$GEN"
 for h in cmn ctx; do
+  # a tree that was never configured with CMake (fresh scratch worktree) lacks them; the library sources include them by their
+  # in-tree path ("public/module/<h>.h", #pragma once), so they are generated in place (they are git-ignored there)
+  if [ ! -f $L/core/public/module/$h.h ]; then sed -e 's/@PROJECT_VERSION_MAJOR@/6/;s/@PROJECT_VERSION_MINOR@/0/;s/@PROJECT_VERSION_PATCH@/0/;s/@M_CTX_HAS_FS@//' $L/core/public/module/$h.h.in > $L/core/public/module/$h.h; fi
   if [ -f $L/core/public/module/$h.h ]; then cp $L/core/public/module/$h.h $GEN/$h.h
   else sed -e 's/@PROJECT_VERSION_MAJOR@/6/;s/@PROJECT_VERSION_MINOR@/0/;s/@PROJECT_VERSION_PATCH@/0/;s/@M_CTX_HAS_FS@//' $L/core/public/module/$h.h.in > $GEN/$h.h; fi
 done
